@@ -501,4 +501,81 @@ theorem disabled_never_used (tab : OpTable) (ts : List Tok) (a : Ast)
       | [], h, _ => cases h
       | _ :: _ :: _, h, _ => cases h
 
+theorem sanitize_err (norm : List Char → Except PyErr (List Char)) :
+    ∀ (ts : List Tok) (e : PyErr), sanitizeTokens norm ts = .error e →
+      ∃ t ∈ ts, t.kind = some .python ∧ norm t.text = .error e := by
+  intro ts
+  induction ts with
+  | nil => intro e h; simp [sanitizeTokens] at h
+  | cons t ts ih =>
+    intro e h
+    unfold sanitizeTokens at h
+    simp only at h
+    by_cases hd : (t.text == ['.'] && t.kind != some .name) = true
+    · simp only [hd, if_true] at h
+      have hk : ¬ ((some TKind.operator : Option TKind) == some .python) = true := by decide
+      simp only [hk, Bool.false_eq_true, if_false] at h
+      cases hr : sanitizeTokens norm ts with
+      | error e' =>
+        rw [hr] at h; injection h with h; subst h
+        obtain ⟨t', ht', hp⟩ := ih _ hr
+        exact ⟨t', by simp [ht'], hp⟩
+      | ok r => rw [hr] at h; cases h
+    · simp only [hd, Bool.false_eq_true, if_false] at h
+      by_cases hp : (t.kind == some .python) = true
+      · simp only [hp, if_true] at h
+        cases hn : norm t.text with
+        | error e' =>
+          rw [hn] at h
+          simp only [Except.map] at h
+          injection h with h; subst h
+          exact ⟨t, by simp, by simpa using hp, hn⟩
+        | ok x =>
+          rw [hn] at h
+          simp only [Except.map] at h
+          cases hr : sanitizeTokens norm ts with
+          | error e' =>
+            rw [hr] at h; injection h with h; subst h
+            obtain ⟨t', ht', hp'⟩ := ih _ hr
+            exact ⟨t', by simp [ht'], hp'⟩
+          | ok r => rw [hr] at h; cases h
+      · simp only [hp, Bool.false_eq_true, if_false] at h
+        cases hr : sanitizeTokens norm ts with
+        | error e' =>
+          rw [hr] at h; injection h with h; subst h
+          obtain ⟨t', ht', hp'⟩ := ih _ hr
+          exact ⟨t', by simp [ht'], hp'⟩
+        | ok r => rw [hr] at h; cases h
+
+/-- C14.3  Tokenisation and token rewriting fail only with the parsing error, or with Python's
+SyntaxError, and the latter only when a Python fragment found in the string is itself rejected by
+the Python parser (`norm`, i.e. `ast.parse`). For every string and configuration. -/
+theorem pySyntax_only_from_fragment (cfg : ParseCfg) (env : PyEnv) (cs : List CharInfo) (e : ParseErr)
+    (hnorm : ∀ t x, env.norm t = .error x → x = .syntaxError)
+    (h : getTokens cfg env cs = .error e) :
+    (∃ w, e = .syntax w) ∨
+    (e = .pySyntax ∧ ∃ t ∈ (tokenizeStream cs).1, t.kind = some .python ∧ env.norm t.text = .error .syntaxError) := by
+  unfold getTokens at h
+  simp only at h
+  cases hs : sanitizeTokens env.norm (tokenizeStream cs).1 with
+  | error x =>
+    rw [hs] at h
+    injection h with h
+    obtain ⟨t, ht, hk, hn⟩ := sanitize_err env.norm _ _ hs
+    have hx := hnorm _ _ hn
+    subst hx
+    right
+    exact ⟨by rw [← h]; rfl, t, ht, hk, hn⟩
+  | ok ts =>
+    rw [hs] at h
+    simp only at h
+    cases hl : (tokenizeStream cs).2 with
+    | none => rw [hl] at h; cases h
+    | some le =>
+      rw [hl] at h
+      injection h with h
+      left
+      cases le <;> exact ⟨_, h.symm⟩
+
+
 end FormulaicVerif.Proofs.C14
